@@ -687,6 +687,18 @@ async fn run_case(c: &Case, root: &std::path::Path) -> Result<Outcome, CaseResul
         ctx.register_listing_table("t", &location, opts, Some(file_schema.clone()), None).await.map_err(|e| df_fail("register_listing_table", &e))?;
         labels.push("register:api".into());
     }
+    // the partition column types of the table as registered (CREATE EXTERNAL TABLE maps VARCHAR to Utf8View)
+    let declared_part_cols = part_cols.clone();
+    let part_cols: Vec<(String, DataType)> = {
+        let provider = ctx.table_provider("t").await.map_err(|e| CaseResult::inconclusive(format!("table_provider: {e}")))?;
+        match provider.downcast_ref::<datafusion::datasource::listing::ListingTable>() {
+            Some(lt) => lt.options().table_partition_cols.clone(),
+            None => declared_part_cols.clone(),
+        }
+    };
+    if part_cols.len() != declared_part_cols.len() {
+        return Err(CaseResult::inconclusive("registered table has an unexpected number of partition columns"));
+    }
 
     // the reference table: rows of the member files with partition columns materialised
     let mut mcols = data_cols();
@@ -741,7 +753,9 @@ async fn run_case(c: &Case, root: &std::path::Path) -> Result<Outcome, CaseResul
             let want: Vec<ScalarValue> = laid[*i]
                 .values
                 .iter()
-                .map(|v| match v {
+                .zip(part_cols.iter())
+                .map(|(v, (_, dt))| match v {
+                    V::Str(s) if *dt == DataType::Utf8View => ScalarValue::Utf8View(Some(s.clone())),
                     V::Str(s) => ScalarValue::Utf8(Some(s.clone())),
                     V::Int(x) => ScalarValue::Int32(Some(*x as i32)),
                     V::Date(d) => ScalarValue::Date32(Some(*d)),
@@ -943,14 +957,14 @@ fn pred_strategy() -> BoxedStrategy<Pred> {
         1 => (colref(), op(), any::<u16>()).prop_map(|(c, o, l)| Pred::CastText(c, o, l)),
         2 => (colref(), any::<u8>(), op(), any::<u16>()).prop_map(|(c, f, o, l)| Pred::Func(c, f, o, l)),
     ];
-    leaf.prop_recursive(3, 8, 2, |inner| {
+    let tree = leaf.clone().prop_recursive(3, 8, 2, |inner| {
         prop_oneof![
-            3 => (inner.clone(), inner.clone()).prop_map(|(a, b)| Pred::And(Box::new(a), Box::new(b))),
-            2 => (inner.clone(), inner.clone()).prop_map(|(a, b)| Pred::Or(Box::new(a), Box::new(b))),
+            2 => (inner.clone(), inner.clone()).prop_map(|(a, b)| Pred::And(Box::new(a), Box::new(b))),
+            3 => (inner.clone(), inner.clone()).prop_map(|(a, b)| Pred::Or(Box::new(a), Box::new(b))),
             1 => inner.prop_map(|a| Pred::Not(Box::new(a))),
         ]
-    })
-    .boxed()
+    });
+    prop_oneof![2 => leaf, 3 => tree].boxed()
 }
 
 fn file_strategy(tier: Tier) -> BoxedStrategy<FileSpec> {
@@ -1007,7 +1021,7 @@ impl Property for C27 {
             .boxed()
     }
     fn budget(&self, tier: Tier) -> Budget {
-        Budget::new(tier.pick(400, 15_000), tier.pick(8, 16)).min_nontrivial(tier.pick(60, 2_000)).case_timeout(180)
+        Budget::new(tier.pick(640, 15_000), tier.pick(8, 16)).min_nontrivial(tier.pick(150, 4_000)).case_timeout(180)
     }
     fn rule(&self) -> String {
         "1-3 typed partition columns, 1-12 harness-written files in a hive layout with 6 directory spellings per value, layout noise, dir/glob/single-file location, \
